@@ -4,10 +4,10 @@
 import json, os, re, sys
 HERE = os.path.dirname(os.path.abspath(__file__))
 pid = sys.argv[1]
-rnd = 5 if "--round5" in sys.argv else 4 if "--round4" in sys.argv else 3 if "--round3" in sys.argv else 2
+rnd = 6 if "--round6" in sys.argv else 5 if "--round5" in sys.argv else 4 if "--round4" in sys.argv else 3 if "--round3" in sys.argv else 2
 src = "/tmp/mut/%s/notes.md" % pid
 text = open(src).read()
-secs = re.split(r"(?m)^#{2,3} +(?:Mutant|mutant)\s+([ABC])\b", text)
+secs = re.split(r"(?m)^#{2,3} +(?:Mutant|mutant)\s+([ABCMN])\b", text)
 # secs = [pre, 'A', bodyA, 'B', bodyB, ...]
 def clean(s, n):
     s = re.sub(r"\s+", " ", s).strip().strip("*").strip()
@@ -25,7 +25,7 @@ for i in range(1, len(secs) - 1, 2):
             break
     # stop at the next section heading
     need = need.split("\n## ")[0]
-    new = {2: {"A": "D", "B": "E", "C": "F"}, 3: {"A": "G", "B": "H", "C": "I"}, 4: {"A": "J", "B": "K", "C": "L"}, 5: {"A": "M", "B": "N", "C": "O"}}[rnd][letter]
+    new = {2: {"A": "D", "B": "E", "C": "F"}, 3: {"A": "G", "B": "H", "C": "I"}, 4: {"A": "J", "B": "K", "C": "L"}, 5: {"A": "M", "B": "N", "C": "O"}, 6: {"M": "M", "N": "N"}}[rnd][letter]
     mp = os.path.join(HERE, "seeded", pid + new, "meta.json")
     if not os.path.exists(mp):
         continue
